@@ -81,7 +81,7 @@ fn all_mems(thorough: bool) -> Vec<Mem> {
         vec![0, 1, -1, 2, 0x7FFF, -0x8000, 0xFFFF, 0x8000]
     };
     let mut forms = Vec::new();
-    for n in [0u16, 1, 0x0123, 0x7FFF, 0x8000, 0xFFFF] {
+    for n in [0u16, 1, 0x000E, 0x000F, 0x0010, 0x0011, 0x0123, 0x7FFF, 0x8000, 0xFFFF] {
         forms.push(MemForm::Direct(n));
     }
     for r in [R_BX, R_BP, R_SI, R_DI] {
@@ -239,6 +239,40 @@ fn sweep_mem(rep: &Reporter, c: &Counters, thorough: bool) -> usize {
                     }
                 }
             }
+            // targeted: register values chosen so that segment*16+offset lands exactly on and around
+            // 2^20 (0xFFFFE .. 0x100001) and on the largest reachable sum, for three segment values
+            if nregs >= 1 {
+                let d: i64 = match m.form {
+                    MemForm::RegDisp(_, d) => d as i64,
+                    MemForm::BaseIndex(_, _, d) => d.unwrap_or(0) as i64,
+                    _ => 0,
+                };
+                for sv in [0xFFFFu16, 0xF001, 0xF800] {
+                    for target in [0xFFFFEi64, 0xFFFFF, 0x100000, 0x100001, 0x100002] {
+                        let off = target - sv as i64 * 16;
+                        if off < 0 || off > 0xFFFF {
+                            continue;
+                        }
+                        let idxs: &[u16] = if nregs >= 2 { &[0x0007, 0xFFF0] } else { &[0] };
+                        for x in idxs {
+                            let b = (off - d - *x as i64).rem_euclid(1 << 16) as u16;
+                            let mv: u32 = if *w == W::B { 0x7C } else { 0x7C3E };
+                            let rv: u32 = if *w == W::B { 0x91 } else { 0x91A7 };
+                            let (pre, addr, off, segv) = state_for(&i, m, *w, b, *x, sv, mv, rv, &p.dc);
+                            wk.case(
+                                rep,
+                                c,
+                                &mut p,
+                                &pre,
+                                &site,
+                                &[("base", b as i64), ("index", *x as i64), ("segv", segv as i64), ("off", off as i64), ("addr", addr as i64), ("w", w.bits() as i64)],
+                                b as u64 + *x as u64 + sv as u64,
+                                true,
+                            );
+                        }
+                    }
+                }
+            }
             c.shapes.fetch_add(1, Ordering::Relaxed);
             wk.flush(c);
             c.sample(json!({"source_line": render_instr(&p.instr), "emitted": p.line, "shape": site}));
@@ -350,7 +384,7 @@ pub fn run(tier: &Tier) -> i32 {
     sweep_byte_alias(&rep, &c);
     let mut cov = Coverage::default();
     cov.exhaustive = true;
-    cov.rule = "every case = (consumer instruction with one memory operand, pre-state): all address forms of syntax.md (direct, indirect, based, indexed, based-indexed, with 8 displacements incl. negative and wrapping ones) x {no override, ES, CS, SS, DS} x both widths x 12 consumers (loads, stores, read-modify-writes, xchg, lea, destination aliasing an address register) x base/index register lattice x 6 segment values chosen so that seg*16+off straddles 2^20. The operand value sits only at the reference address; decoy markers sit at the same offset in the other segments, at the unwrapped offset and at the neighbouring bytes; the whole 1 MB is compared after every execution. Plus data-label operands with 6 DS values and byte-register aliasing (8 registers x 256 values x parent lattice)".into();
+    cov.rule = "every case = (consumer instruction with one memory operand, pre-state): all address forms of syntax.md (direct, indirect, based, indexed, based-indexed, with 8 displacements incl. negative and wrapping ones) x {no override, ES, CS, SS, DS} x both widths x 12 consumers (loads, stores, read-modify-writes, xchg, lea, destination aliasing an address register) x base/index register lattice x 6 segment values chosen so that seg*16+off straddles 2^20, plus, for every shape, register values solved so that seg*16+off is exactly 0xFFFFE, 0xFFFFF, 2^20, 2^20+1, 2^20+2 for three segment values. The operand value sits only at the reference address; decoy markers sit at the same offset in the other segments, at the unwrapped offset and at the neighbouring bytes; the whole 1 MB is compared after every execution. Plus data-label operands with 6 DS values and byte-register aliasing (8 registers x 256 values x parent lattice)".into();
     cov.bounds = json!({"mem_shapes": n, "register_values": if tier.thorough {6} else {4}, "segments": 6, "tier": tier.name()});
     cov.assumptions = common_assumptions();
     cov.assumptions.push("physical address = (segment*16 + ((base+index+disp) mod 2^16)) mod 2^20; default segment SS iff BP is the base".into());
